@@ -653,7 +653,7 @@ func runForwardCase(c FwdCase, info *vkit.Info, cls *classSet) error {
 			if why == "" {
 				return fmt.Errorf("harness: fabricated %v is not stale", h)
 			}
-		case "eqver":
+		case "eqver", "grow":
 			if why != "" {
 				return fmt.Errorf("harness: fabricated %v is stale (%s)", h, why)
 			}
